@@ -25,10 +25,18 @@ def corpus(ctx):
     fam = family()
     n1, n2 = (8, 10) if ctx.quick else (80, 120)
     sds = degenerate_settings() + rng.sample(fam, n1) + [gen_conn.random_sdesc(rng) for _ in range(n2)]
-    scheds = ['sched:all', 'sched:nonlazy', 'sched:count', 'sched:none'] + ['sched:mask:%d' % rng.getrandbits(24) for _ in range(4)]
-    # real limiter: tiny (some candidates really expire) and generous; adversary schedules: deterministic expiry patterns
-    limits = [(0.0005, 2.0, scheds[(i//4) % len(scheds)], scheds[(i//4+3) % len(scheds)])[i % 4] for i in range(len(sds))]
-    return sds, limits
+    # (time limit, n_mat_max_eager) configurations: the real limiter tiny / generous; adversary schedules that decide
+    # which timed calls expire; the default and a tiny threshold for "few enough matrices to try the eager encoders first"
+    combos = [(0.0005, None), (2.0, None), ('sched:lazy', 2), ('sched:all', None), ('sched:nonlazy', None), ('sched:count', 2),
+              (2.0, 2), ('sched:none', None), ('sched:lazy', None), ('sched:none', 2)]
+    combos += [('sched:mask:%d' % rng.getrandbits(24), (2 if k % 2 else None)) for k in range(4)]
+    nd = len(degenerate_settings())
+    limits, eagers = [], []
+    for i in range(len(sds)):
+        lim, em = combos[i % len(combos)] if i < nd else combos[(i - nd) % len(combos)]
+        limits.append(lim)
+        eagers.append(em)
+    return sds, limits, eagers
 
 
 MODEL_CONFIGS = (   # name, KeyInjective, NonAtomicWrite, RobustEncoder, invariants, invariant expected to be violated
@@ -64,11 +72,11 @@ def model_check(workdir):
 
 
 def drive_one(item):
-    tid, sd, wd, limit, other, seed = item
+    tid, sd, wd, limit, other, seed, eager_max = item
     try:
-        # configuration: every second settings is selected with a tiny n_mat_max_eager, which sends selection through
-        # the 'lazy candidates first, eager candidates later' stages that small settings never reach otherwise
-        return drive_select.drive(sd, wd, tid=tid, limit=limit, other=other, seed=seed, eager_max=(2 if tid % 2 else None))
+        # a tiny n_mat_max_eager sends selection through the 'lazy candidates first, eager candidates later' stages
+        # that small settings never reach otherwise
+        return drive_select.drive(sd, wd, tid=tid, limit=limit, other=other, seed=seed, eager_max=eager_max)
     except Exception:
         import traceback
         return {'tid': tid, 's': sd, 'crash': traceback.format_exc(limit=8)}
@@ -80,12 +88,12 @@ def key_one(item):
 
 
 def run(ctx):
-    sds, limits = corpus(ctx)
+    sds, limits, eagers = corpus(ctx)
     wd = tempfile.mkdtemp(prefix='select-', dir=CACHE if os.path.isdir(CACHE) else None)
     try:
         model = model_check(os.path.join(wd, 'model'))
         others = drive_select.run_other_process(list(zip(sds, limits)), wd, hash_seed=4242+ctx.seed)
-        traces = pmap(drive_one, [(i, sd, wd, limits[i], others[i], ctx.seed) for i, sd in enumerate(sds)], seed=ctx.seed, chunksize=1)
+        traces = pmap(drive_one, [(i, sd, wd, limits[i], others[i], ctx.seed, eagers[i]) for i, sd in enumerate(sds)], seed=ctx.seed, chunksize=1)
         rng = ctx.rng('keys')
         pairs = drive_select.key_pairs(rng, 60 if ctx.quick else 600)
         keyrecs = pmap(key_one, [(100000+i, a, b, k) for i, (a, b, k) in enumerate(pairs)], seed=ctx.seed)
@@ -102,11 +110,11 @@ def run(ctx):
     for t in traces:
         v = mon1['verdicts'][t['tid']]
         counts = v[3] if isinstance(v[3], list) else [v[3][k] for k in sorted(v[3])]
-        recs.append({'tid': t['tid'], 'rkind': 'settings', 'sel': t['sel'], 'valid_counts': counts, 's': t['s'], 'limit': limits[t['tid']]})
+        recs.append({'tid': t['tid'], 'rkind': 'settings', 'sel': t['sel'], 'valid_counts': counts, 's': t['s'], 'limit': limits[t['tid']], 'eager_max': eagers[t['tid']]})
         bad = [c for c in v[2] if c[0].startswith('C10.') and c[0] != 'C10.variable_with_one_value']
         if bad:
             coding_fails.append({'tid': t['tid'], 'fails': [['C12.selected_coding_not_working:' + c[0], c[1]] for c in bad[:5]], 's': t['s'],
-                                 'enc': layer_coding.enc_of(t, bad[0][1], bad[0][0]), 'limit': limits[t['tid']],
+                                 'enc': layer_coding.enc_of(t, bad[0][1], bad[0][0]), 'limit': limits[t['tid']], 'eager_max': eagers[t['tid']],
                                  'selected': sorted({s['desc']['encoder'] for s in t['sel']})})
     for r in keyrecs:
         r['rkind'] = 'keypair'
@@ -126,7 +134,7 @@ def run(ctx):
                     out['encoders_selected'][s['desc']['encoder'].split('+')[0].strip()[:30]] += 1
         if v[2]:
             out['fails'].append({'tid': r['tid'], 'fails': first_per_clause(v[2]), 's': r.get('s') or {'a': r['a'], 'b': r['b'], 'kind': r['kind']}, 'enc': None,
-                                 'limit': r.get('limit'), 'selected': sorted({s['desc']['encoder'] for s in r.get('sel', [])})})
+                                 'limit': r.get('limit'), 'eager_max': r.get('eager_max'), 'selected': sorted({s['desc']['encoder'] for s in r.get('sel', [])})})
     t0 = traces[0]
     out['samples'] = [{'settings': t0['s'], 'selections': [{k: s[k] for k in ('hist', 'limit_ms', 'sched', 'err')} | {'encoder': s['desc']['encoder'], 'ndv': s['desc']['ndv']} for s in t0['sel']]},
                       {'key_pair': {k: keyrecs[0][k] for k in ('kind', 'same_key')}} if keyrecs else {}]
